@@ -245,7 +245,7 @@ var genDeclRe = regexp.MustCompile(`\b(reg|wire|integer|genvar|parameter|localpa
 // which only chc / chw declare (undeclared) — a defect of the unchanged tree that only shows
 // once the generate loops are unrolled; reported to the integrator.  Until it is listed the files of such
 // processors are not unrolled (they stay not-lintable, as before).  Set to true afterwards.
-const pendingChannelHalf = false
+const pendingChannelHalf = true
 
 var genBitRe = regexp.MustCompile(`(\w+)\s*\[\s*(\w+)\s*\]\s*<=`)
 
